@@ -33,7 +33,7 @@ type c07Cfg struct {
 }
 
 var c07Faults = []string{"none", "status-reject", "status-conflict", "status-lost", "crash-between", "spec-reject", "spec-conflict", "spec-lost", "crash-before-status"}
-var c07Routes = []string{"command", "restarts", "timeout"}
+var c07Routes = []string{"command", "restarts", "timeout", "command-mid-sync"}
 
 func (c c07Cfg) String() string {
 	return fmt.Sprintf("nodes=%d replicas=%s affinity=%v failBy=%s paused=%v afterDuration=%v fault=%s rsFirst=%v hold=%q unready=%v", c.Nodes, c.Replicas, c.Affinity, c.FailBy, c.Paused, c.AfterDur, c.Fault, c.ExtraEdits, c.Hold, c.Unready)
@@ -124,7 +124,26 @@ func c07Run(rec *evid.Rec, f fataler, cfg c07Cfg) {
 	// ---- the failure
 	armed := false
 	fired := ""
+	failByUser := func() {
+		w.C.Tracef("user fails canary %s", crs)
+		w.C.MutateERS(k.Namespace, crs, func(rs *edsv1.ExtendedDaemonSetReplicaSet) {
+			now := metav1.NewTime(w.C.Now())
+			if c := oracle.RSCond(&rs.Status, edsv1.ConditionTypeCanaryFailed); c != nil {
+				c.Status, c.LastTransitionTime, c.LastUpdateTime = corev1.ConditionTrue, now, now
+			} else {
+				rs.Status.Conditions = append(rs.Status.Conditions, edsv1.ExtendedDaemonSetReplicaSetCondition{Type: edsv1.ConditionTypeCanaryFailed, Status: corev1.ConditionTrue, LastTransitionTime: now, LastUpdateTime: now, Reason: "Manually failed"})
+			}
+		})
+	}
+	midSync, midDone := false, false
 	w.C.Faults = func(call *sim.Call) sim.FaultKind {
+		// route command-mid-sync: `kubectl-eds canary fail` lands after the canary replica set's reconcile has read
+		// the object and right before it writes its status (the write must not erase the user's mark)
+		if midSync && !midDone && call.Actor == sim.ActorERS && call.Verb == "status-update" && call.Name == crs {
+			midDone = true
+			failByUser()
+			return sim.FaultNone
+		}
 		if !armed || fired != "" || call.Actor != sim.ActorEDS || call.Kind != "ExtendedDaemonSet" {
 			return sim.FaultNone
 		}
@@ -160,15 +179,9 @@ func c07Run(rec *evid.Rec, f fataler, cfg c07Cfg) {
 	failedAt := w.C.Now()
 	switch cfg.FailBy {
 	case "command":
-		w.C.Tracef("user fails canary %s", crs)
-		w.C.MutateERS(k.Namespace, crs, func(rs *edsv1.ExtendedDaemonSetReplicaSet) {
-			now := metav1.NewTime(w.C.Now())
-			if c := oracle.RSCond(&rs.Status, edsv1.ConditionTypeCanaryFailed); c != nil {
-				c.Status, c.LastTransitionTime, c.LastUpdateTime = corev1.ConditionTrue, now, now
-			} else {
-				rs.Status.Conditions = append(rs.Status.Conditions, edsv1.ExtendedDaemonSetReplicaSetCondition{Type: edsv1.ConditionTypeCanaryFailed, Status: corev1.ConditionTrue, LastTransitionTime: now, LastUpdateTime: now, Reason: "Manually failed"})
-			}
-		})
+		failByUser()
+	case "command-mid-sync":
+		midSync = true
 	case "restarts":
 		for _, p := range w.C.Pods() {
 			if p.Labels[oracle.LabelRSName] == crs {
@@ -298,7 +311,7 @@ func c07Run(rec *evid.Rec, f fataler, cfg c07Cfg) {
 }
 
 func TestC07Rollback(t *testing.T) {
-	rec := evid.New("TestC07Rollback", "C07", "history: first deployment, template change, canary up on its nodes, optional pause, optional elapsed duration, optionally rollout-frozen / rolling-update-paused for three minutes from the failure on (canary pods optionally not Ready meanwhile), then the canary fails by {kubectl-eds canary fail, restart storm -> auto-fail, canaryTimeout}; the rollback reconcile meets a fault of the two-write window {none, status write rejected (generic error or Conflict), status applied/answer lost, stop between the writes, spec write rejected (generic error or Conflict), spec applied/answer lost, stop before the status write}; then fair rounds with advancing time; oracle: within 25 rounds spec.template = active template, status.canary nil, status.activeReplicaSet unchanged, every former canary node runs one Ready pod of the active template; the failed set exists for >= 2 minutes and is deleted only with an all-zero status (rs-gc monitor); non-trivial = a canary pod existed at failure time and (no fault requested or the fault hit the window); distinct by configuration")
+	rec := evid.New("TestC07Rollback", "C07", "history: first deployment, template change, canary up on its nodes, optional pause, optional elapsed duration, optionally rollout-frozen / rolling-update-paused for three minutes from the failure on (canary pods optionally not Ready meanwhile), then the canary fails by {kubectl-eds canary fail, restart storm -> auto-fail, canaryTimeout, canary fail landing between the read and the status write of the canary replica set's own sync}; the rollback reconcile meets a fault of the two-write window {none, status write rejected (generic error or Conflict), status applied/answer lost, stop between the writes, spec write rejected (generic error or Conflict), spec applied/answer lost, stop before the status write}; then fair rounds with advancing time; oracle: within 25 rounds spec.template = active template, status.canary nil, status.activeReplicaSet unchanged, every former canary node runs one Ready pod of the active template; the failed set exists for >= 2 minutes and is deleted only with an all-zero status (rs-gc monitor); non-trivial = a canary pod existed at failure time and (no fault requested or the fault hit the window); distinct by configuration")
 	t.Cleanup(func() {
 		if !t.Failed() {
 			rec.Done()
@@ -315,7 +328,7 @@ func TestC07Rollback(t *testing.T) {
 
 // TestC07Window enumerates failure route x fault position x paused x after-duration completely (fixed size).
 func TestC07Window(t *testing.T) {
-	rec := evid.New("TestC07Window", "C07", "complete product {3 failure routes} x {9 fault positions/kinds of the rollback's two-write window} x {paused or not} x {duration elapsed or not} x {replica sets or EDS reconciled first} x {no hold, rollout frozen, rolling update paused for three minutes with the canary pods not Ready} on a 3-node cluster with one canary node; oracle and non-triviality as TestC07Rollback")
+	rec := evid.New("TestC07Window", "C07", "complete product {4 failure routes} x {9 fault positions/kinds of the rollback's two-write window} x {paused or not} x {duration elapsed or not} x {replica sets or EDS reconciled first} x {no hold, rollout frozen, rolling update paused for three minutes with the canary pods not Ready} on a 3-node cluster with one canary node; oracle and non-triviality as TestC07Rollback")
 	failed := false
 	ff := &firstFail{t: t, failed: &failed}
 	shard, shards := envInt("VERIF_SHARD", 0), envInt("VERIF_SHARDS", 1)
